@@ -104,7 +104,52 @@ def gen_scenario(rng, tier, allow_delay=True, long_idle=True, modelname_bias=Fal
         "seed": rng.randrange(1 << 30),
         "read_log_midway": rng.random() < 0.3,
     }
+    # a second, independent connection alive in the same process (state must not leak between objects)
+    # a message callback of the application that stays busy for longer than the keep-alive interval
+    sc["slow_cb"] = {"at": rng.randrange(1, 4), "sleep_s": rng.choice([31.0, 35.0, 64.0])} if (long_idle and rng.random() < 0.15) else None
+    sc["decoy"] = rng.random() < 0.25
+    # a second session on the same object
+    sc["prior_session"] = {"close_after_s": rng.choice([0.0, 0.02, 0.06, 0.15]), "reconnect_after_s": rng.choice([0.0, 0.0, 0.01, 0.5])} if rng.random() < 0.2 else None
     return sc
+
+
+def mon_framing(s):
+    """the lines the protocol handles are exactly the complete lines of the bytes read in THIS session (C02)"""
+    data = b"".join(bytes(e["data"]) for e in s.sim.events if e["k"] == "Read" and e["th"] == "reader")
+    want = [x.decode("utf-8", "replace") for x in data.split(b"\r\n")[:-1]]
+    got = [e["text"] for e in s.sim.events if e["k"] == "Line"]
+    if got != want[: len(got)] or len(got) < len(want) - 0:
+        k = next((i for i, (a, b) in enumerate(zip(got, want)) if a != b), min(len(got), len(want)))
+        return f"line #{k} handled by the protocol is {got[k]!r} but the bytes read in this session frame to {want[k]!r}" if k < len(got) and k < len(want) else f"{len(want)} complete lines were read in this session, {len(got)} were handled"
+    return None
+
+
+def mon_decoy(s, sc):
+    """the two connections of one process do not influence each other (part of every connection property:
+    what is submitted on one connection reaches that connection's wire, and only that)"""
+    if not sc.get("decoy") or not getattr(s, "decoy_port", None):
+        return None
+    dw = [bytes(w[1])[:-2].decode("utf-8", "replace") for w in s.decoy_port.writes]
+    own = set(s.decoy_sent) | {PROBE}
+    for x in dw:
+        if x not in own:
+            return f"a second connection in the same process wrote {x!r}, which was never submitted on it"
+    pw = [bytes(w[1])[:-2].decode("utf-8", "replace") for w in (s.port.writes if s.port else [])]
+    for x in pw:
+        if x.startswith("@DECOY:"):
+            return f"the connection under test wrote {x!r}, which was submitted on another connection"
+    want = [x for x in s.decoy_sent]
+    got = [x for x in dw if x != PROBE or x in want]
+    missing = [x for x in want if dw.count(x) < want.count(x)]
+    if missing and not s.decoy_disconnects:
+        return f"commands submitted on the second connection never reached its wire: {missing[:3]}"
+    for st, sub, f, v in getattr(s, "decoy_deliveries", []):
+        if sub is not None and sub != "DECOY" and not (sub == "SYS" and f == "MODELNAME"):
+            return f"the second connection delivered {sub}:{f}={v!r}, a line of the connection under test"
+    for t, st, sfv in s.deliveries:
+        if sfv and (sfv[0] == "DECOY" or sfv[2] == "DECOY-1"):
+            return f"the connection under test delivered {sfv!r}, a line the other device sent to the other connection"
+    return None
 
 
 def run_scenario(sc, extra_body=None):
@@ -113,7 +158,45 @@ def run_scenario(sc, extra_body=None):
     s.mid_logs = []
 
     def body(s):
-        c = s.connect()
+        stop_decoy = None
+        if sc.get("decoy"):
+            stop_decoy = s.start_decoy(random.Random(sc["seed"] + 77))
+        if sc.get("prior_session"):
+            # the same YncaConnection object has been through an earlier session that ended with a command just
+            # written and half a line received; the session under test starts with the reconnect
+            c = s.connect()
+            s.sleep(0.3)
+            s.dev.emit_at(s.sim.now + 1000, b"@MAIN:VOL=-30.0\r\n@MAIN:MUTE=O", cause=None)
+            s.sleep(0.05)
+            c.put("MAIN", "PWR", "On")
+            s.sleep(sc["prior_session"]["close_after_s"])
+            c.close()
+            s.prior = {"last_write_us": s.port.writes[-1][0] if s.port and s.port.writes else None, "writes": len(s.port.writes) if s.port else 0}
+            s.sleep(sc["prior_session"]["reconnect_after_s"])
+            # threads of the earlier session that are still winding down (the old sender may sit on the write lock
+            # until close() releases it) do not belong to the trace of the session under test
+            for t in s.sim.threads:
+                if t.name in ("sender", "reader"):
+                    t.decoy = True
+                    t.name += "~old"
+            del s.sim.events[:]
+            del s.deliveries[:]
+            del s.disconnects[:]
+            del s.submitted[:]
+            s.t_connect = s.sim.now
+            c.connect(lambda: s.disconnects.append(s.sim.now), s.log_size)
+        else:
+            s.t_connect = 0
+            c = s.connect()
+        if sc.get("slow_cb"):
+            cnt = [0]
+
+            def slow(st, sub, f, v):
+                cnt[0] += 1
+                if cnt[0] == sc["slow_cb"]["at"]:
+                    s.sleep(sc["slow_cb"]["sleep_s"])
+
+            c.register_message_callback(slow)
         if sc["unsolicited"]:
             recv = rec_lines()[1]
             for k in range(rng.randrange(1, 6)):
@@ -131,6 +214,8 @@ def run_scenario(sc, extra_body=None):
         if extra_body:
             extra_body(s)
         c.close()
+        if stop_decoy:
+            stop_decoy()
 
     s.run(body)
     return s
@@ -171,6 +256,9 @@ def nontrivial_conn(s):
 # ------------------------------------------------------------------------------ monitors (from the property texts)
 def mon_c08(s):
     w = s.port.writes if s.port else []
+    pr = getattr(s, "prior", None)
+    if pr and pr.get("last_write_us") is not None and w and w[0][0] - pr["last_write_us"] < SPACING:
+        return f"the last line of the previous session on this object was written at {pr['last_write_us']} us and the first line after reconnecting at {w[0][0]} us: only {w[0][0] - pr['last_write_us']} us apart"
     for a, b in zip(w, w[1:]):
         if b[0] - a[0] < SPACING:
             return f"writes {a[1]!r} at {a[0]} us and {b[1]!r} at {b[0]} us are only {b[0] - a[0]} us apart"
@@ -354,7 +442,8 @@ def mon_c12(s):
     if len(w) >= 2:
         if not (w[0][1] == (PROBE + "\r\n").encode() and w[1][1] == (PROBE + "\r\n").encode()):
             return f"the first two transmissions after connecting are {w[0][1]!r}, {w[1][1]!r}, not two probes"
-        if w[0][0] != 0 or w[1][0] != code_spacing():
+        t0 = getattr(s, "t_connect", 0)
+        if w[0][0] != t0 or w[1][0] != t0 + code_spacing():
             return f"the two start-up probes were written at {w[0][0]} and {w[1][0]} us"
     else:
         return "fewer than two transmissions after connecting"
